@@ -119,6 +119,60 @@ func Route(layout int) {
 	vp.Reach("attached")
 }
 
+// ownerOf selects the owner of a (symbolic) window address by comparison.
+func ownerOf(owner *[winSegs]int, a uint32) int {
+	own := -1
+	for s := 0; s < winSegs; s++ {
+		if int(a-winBase)>>4 == s {
+			own = owner[s]
+		}
+	}
+	return own
+}
+
+// Route24: the three-byte read (EaRead24_wrap) at a symbolic window address: every one of the three
+// bytes goes to the memory most recently attached over *its own* address, with the full address,
+// and the read fails loudly when any of the three addresses is unattached.
+func Route24(layout int) {
+	b, ps, owner := build(layout)
+	off := vp.U16("offset")
+	vp.Assume(uint32(off) >= winBase && uint32(off)+2 < winBase+16*winSegs)
+	var own [3]int
+	var want uint32
+	for k := 0; k < 3; k++ {
+		a := uint32(off) + uint32(k)
+		own[k] = ownerOf(&owner, a)
+		if own[k] >= 0 {
+			want |= uint32(ps[own[k]].value(a)) << (8 * k)
+		}
+	}
+	var got uint32
+	failed := vp.Try(func() { got = b.EaRead24_wrap(0, off) })
+	if own[0] < 0 || own[1] < 0 || own[2] < 0 {
+		vp.Assert("unattached-address-fails-loudly-on-read", failed)
+		vp.Reach("unattached")
+		return
+	}
+	vp.Assert("attached-address-is-served", !failed)
+	if failed {
+		return
+	}
+	vp.Assert("each-byte-of-a-long-read-comes-from-the-memory-attached-over-its-address", got == want)
+	for i := 0; i < 3; i++ {
+		cnt := 0
+		for k := 0; k < 3; k++ {
+			if own[k] == i {
+				cnt++
+			}
+		}
+		vp.Assert("long-read-reaches-each-memory-once-per-byte-it-owns", ps[i].reads == cnt)
+	}
+	if own[2] >= 0 {
+		vp.Assert("read-receives-the-full-unmodified-address", ps[own[2]].lastAddr == uint32(off)+2)
+	}
+	vp.Reach("attached")
+}
+
 // Misaligned: an Attach whose range is not 16-byte aligned is rejected and changes no routing.
 // The range starts somewhere in window segment seg0 and ends somewhere in segment seg1 (the low
 // nibbles of both bounds are symbolic, assumed misaligned); FarAway additionally tries fully
